@@ -388,6 +388,8 @@ pub struct NodeSpec {
     pub port: Option<u16>,
     pub server: bool,
     pub bootstrap: Vec<SocketAddrV4>,
+    /// bootstrap entries given as raw strings (host names, malformed entries), listed before `bootstrap`
+    pub bootstrap_names: Vec<String>,
     pub public_ip: Option<Ipv4Addr>,
     pub settings: Option<ServerSettings>,
     pub nat_public: Option<SocketAddrV4>,
@@ -395,7 +397,7 @@ pub struct NodeSpec {
 
 impl NodeSpec {
     pub fn server(ip: Ipv4Addr, bootstrap: &[SocketAddrV4]) -> Self {
-        NodeSpec { ip, port: None, server: true, bootstrap: bootstrap.to_vec(), public_ip: None, settings: None, nat_public: None }
+        NodeSpec { ip, port: None, server: true, bootstrap: bootstrap.to_vec(), bootstrap_names: vec![], public_ip: None, settings: None, nat_public: None }
     }
     pub fn client(ip: Ipv4Addr, bootstrap: &[SocketAddrV4]) -> Self {
         NodeSpec { server: false, ..NodeSpec::server(ip, bootstrap) }
@@ -538,7 +540,7 @@ impl World {
         let before: HashSet<SockId> = self.sh.lock().socks.keys().copied().collect();
         self.sh.lock().bind_plan.push_back(BindPlan { released: false, ip: spec.ip, nat_public: spec.nat_public });
         let mut b = Dht::builder();
-        let boots: Vec<String> = spec.bootstrap.iter().map(|a| a.to_string()).collect();
+        let boots: Vec<String> = spec.bootstrap_names.iter().cloned().chain(spec.bootstrap.iter().map(|a| a.to_string())).collect();
         b.bootstrap(&boots);
         if spec.server {
             b.server_mode();
